@@ -609,3 +609,4 @@ PROPS["C09"]["rule"] += " The parent set is also written and removed as what the
 PROPS["C15"]["rule"] += " The actions of scheduled rules report the `location` and `ruleId` bindings they see, which must be those of the ticking rule."
 PROPS["C11"]["rule"] += (" Besides the solo-vs-concurrent comparison, everything an event or search returns must carry the client's own "
                          "tags (this also holds in the solo runs, which share the process with whatever ran before).")
+PROPS["C18"]["rule"] += " A third of the facts and events carry a nested argument shape (lists directly inside lists with maps below, empty containers)."
